@@ -8,7 +8,7 @@ from typing import List, Optional
 
 from .. import terms as tm
 from ..interp import Interp
-from ..lib import comparisons, fmt, is_call_to, keyed_writes, \
+from ..lib import comparisons, fmt, is_call_to, keyed_writes, root_object, \
     parse_time_transform, parser_arguments, per_element, sweep
 from ..terms import T, const
 from .c17 import find_sinks
@@ -111,20 +111,49 @@ def _set_config(ctx, prog):
     # a parameter named without value tokens: booleans toggle, others stay
     tog = [e for e in stores if not any(
         is_call_to(x, MC + "finalize_values") for x in e.data["value"].walk())]
-    for e in tog:
-        v = e.data["value"]
-        cur = tm.sub(e.data["base"], e.data["index"])
-        ok = v.op == "ite" and is_call_to(v.args[0], "builtins.isinstance") \
-            and v.args[0].args[1][0] is cur and \
-            v.args[0].args[1][1] is tm.glob("builtins.bool") and \
-            v.args[1].op in ("not", "unop") and v.args[1].args[-1] is cur \
-            and v.args[2] is cur
-        ctx.ob("C18.2", e, bool(ok),
-               "set: a bare boolean parameter is toggled, any other bare "
-               "parameter keeps its value" if ok else
-               f"set: a parameter given without value becomes "
-               f"{fmt(v)[:120]} — expected `not current` for booleans and "
-               f"the unchanged value otherwise", key="C18.2:toggle")
+    # decided by cases on "the current value is a boolean"
+    for isbool in (True, False):
+        what = "boolean" if isbool else "non-boolean"
+        verdict = None
+        why = ""
+        site = tog[0] if tog else f
+        for e in tog:
+            cur = tm.sub(e.data["base"], e.data["index"])
+            isb = tm.call(tm.glob("builtins.isinstance"),
+                          (cur, tm.glob("builtins.bool")), ())
+
+            def case(t, isb=isb):
+                return isbool if t is isb else None
+            if tm.fold(e.live, case) is False:
+                continue          # this store does not happen in this case
+            v = tm.select(e.data["value"], case)
+            toggled = v.op in ("not", "unop") and v.args[-1] is cur
+            if v is cur or toggled:
+                good = toggled == isbool
+                if verdict is None or not good:
+                    verdict, site = good, e
+                    why = (f"a bare {what} parameter becomes "
+                           f"{fmt(v)[:100]}")
+            else:
+                verdict, site = "?", e
+                why = f"a bare {what} parameter becomes {fmt(v)[:100]}"
+                break
+        if verdict is None:
+            # no store at all: the value stays (right for non-booleans)
+            verdict = not isbool
+            why = f"a bare {what} parameter is never written"
+            if isbool and not tog:
+                verdict = "?"
+        if verdict == "?":
+            ctx.undecidable("C18.2", site, f"set: {why} (unknown idiom)")
+            continue
+        ctx.ob("C18.2", site, verdict,
+               ("set: a bare boolean parameter is toggled" if isbool else
+                "set: a bare non-boolean parameter keeps its value")
+               if verdict else
+               f"set: {why} — expected `not current` for booleans and the "
+               f"unchanged value otherwise",
+               key=f"C18.2:toggle:{what}")
     dels = [e for e in r.events if e.kind == "delitem" or (
         e.kind == "call" and e.data.get("mutates_recv") and
         e.data["name"] in (".pop", ".clear", ".popitem"))]
@@ -443,36 +472,110 @@ def _upgrade(ctx, prog):
            key="C18.4:upgrade-written")
     g = prog.func(ST + "merge_dicts")
     rg = Interp(prog).run(g, {"soft": const(True)})
-    ups = [e for e in rg.of_kind("call") if e.data.get("mutates_recv") and
-           e.data["name"] == ".update"]
-    ok = False
-    why = "no update of the first dict"
     fp, sp = tm.param("first"), tm.param("second")
-    if len(ups) == 1 and ups[0].data.get("recv") is fp:
-        a = ups[0].data["args"][0]
-        why = fmt(a)
-        if a.op == "comp" and a.args[0] == "dict" and len(a.args[3]) == 1:
-            (it, lid), = a.args[2]
-            el = T("elem", it, lid)
-            k, v = a.args[1].args
-            cond = a.args[3][0]
-            ok = it is tm.call(tm.attr(sp, "items"), (), ()) and \
-                k is tm.sub(el, const(0)) and v is tm.sub(el, const(1)) and \
-                cond is T("cmp", "NotIn", k, fp)
-            if not ok and cond.op != "cmp":
-                why = (f"keys are added when `{fmt(cond)}` — a truthiness "
-                       f"test treats user values such as False, 0, '' or [] "
-                       f"as missing and overwrites them with the default")
-    ctx.ob("C18.4", g, ok,
-           "soft merge adds exactly the keys absent from the first dict "
-           "(`k not in first`)" if ok else
-           f"soft merge is not restricted to absent keys: {why}",
-           key="C18.4:soft-merge")
+    verdict, why = _restricted_writes(rg, fp, sp, present=False)
+    if verdict is None:
+        ctx.undecidable("C18.4", g, f"soft merge: {why} (unknown idiom)")
+    else:
+        ctx.ob("C18.4", g, verdict,
+               "soft merge adds exactly the keys absent from the first dict "
+               "(`k not in first`), with the second dict's values"
+               if verdict else
+               f"soft merge is not restricted to absent keys: {why}",
+               key="C18.4:soft-merge")
     rg = Interp(prog).run(g)
-    ok = rg.ret is fp or all(a is fp or (a.op in ("mut",) and a.args[0] is
-                                         fp) for a in tm.strip_ite(rg.ret))
+    ok = all(root_object(a) is fp for a in tm.strip_ite(rg.ret))
     ctx.ob("C18.4", g, ok, "merge_dicts returns its (updated) first "
            "argument", key="C18.4:returns-first", nontrivial=False)
+
+
+def _restricted_writes(res, target: T, source: T, present: bool):
+    """Are the keyed writes into `target` exactly `target[k] = source[k]` for
+    the keys k of `source` that are (present=True) / are not (present=False)
+    already keys of `target`?  Decided per write by cases on the membership
+    of its key: (True, '') / (False, what deviates) / (None, what is not
+    understood). Accepts item stores in a loop, update() with a dict / pair
+    comprehension, setdefault() and key-set intersections as iteration
+    space."""
+    ws = keyed_writes(res, lambda b_: root_object(b_) is target)
+    if not ws:
+        return (None if present else False), "no update of the first dict"
+    items = tm.call(tm.attr(source, "items"), (), ())
+    skeys = tm.call(tm.attr(source, "keys"), (), ())
+    tkeys = tm.call(tm.attr(target, "keys"), (), ())
+    covered = False
+    for k, v, guard, e in ws:
+        if k is None:
+            # update(whole dict): every key of it, present or not
+            return False, (f"{fmt(v)[:60]} is merged as a whole — keys are "
+                           f"written whether or not they exist")
+        # where the key ranges: an element of source.items() / source /
+        # source.keys() / an intersection with the target's keys
+        rng = None
+        inter = False
+        base = k.args[0] if k.op == "sub" and tm.is_const(k.args[1], 0) \
+            else k
+        if base.op == "elem":
+            it = base.args[0]
+            if it is items and k is not base:
+                rng = "items"
+            elif (it is source or it is skeys) and k is base:
+                rng = "keys"
+            elif it.op == "binop" and it.args[0] == "BitAnd" and \
+                    {it.args[1], it.args[2]} in ({skeys, tkeys},
+                                                 {skeys, target},
+                                                 {source, tkeys}) and \
+                    k is base:
+                rng, inter = "keys", True
+        if rng is None:
+            return None, f"key {fmt(k)[:60]} of the write at {e.where}"
+        want_v = tm.sub(base, const(1)) if rng == "items" else \
+            tm.sub(source, k)
+        if v is not want_v:
+            return None, (f"value {fmt(v)[:60]} written at {e.where} is not "
+                          f"the second dict's value for that key")
+
+        def member(a: T):
+            if a.op == "cmp" and a.args[0] in ("In", "NotIn") and \
+                    a.args[1] is k and (a.args[2] is target or
+                                        a.args[2] is tkeys or
+                                        root_object(a.args[2]) is target):
+                return a.args[0]
+            return None
+        tests = [a for a in tm.atoms(guard) if member(a)]
+
+        def case(is_in: bool):
+            return tm.fold(guard, lambda a: (is_in == (member(a) == "In"))
+                           if member(a) else (True if a.op == "iter"
+                                              else None))
+        if inter:
+            wrong, right = (False if present else True), present
+        else:
+            wrong = case(not present)    # the case that must not be written
+            right = case(present)        # the case that must be written
+        if wrong is not False:
+            if not tests and not inter:
+                others = [a for a in tm.atoms(guard) if a.op != "iter" and
+                          any(x is k or x is target for x in a.walk())]
+                if others:
+                    return False, (
+                        f"keys are written when `{fmt(others[0])}` — not a "
+                        f"membership test of the key (a truthiness test "
+                        f"treats values such as False, 0, '' or [] as "
+                        f"missing)")
+                return False, (f"the write at {e.where} is not conditioned "
+                               f"on the key being "
+                               f"{'present' if present else 'absent'}")
+            if wrong is True:
+                return False, (f"the write at {e.where} happens for keys "
+                               f"that are "
+                               f"{'absent' if present else 'present'}")
+            return None, f"guard {fmt(guard)[:80]} of the write at {e.where}"
+        if right is True:
+            covered = True
+    if not covered:
+        return None, "no write found that covers every qualifying key"
+    return True, ""
 
 
 def _lock(ctx, prog):
@@ -497,20 +600,17 @@ def _lock(ctx, prog):
            key="C18.5:setattr")
     g = prog.func(ST + "SettingsContainer.update_existing_keys")
     rg = Interp(prog).run(g)
-    ups = [e for e in rg.of_kind("call") if e.data.get("mutates_recv") and
-           e.data["name"] == ".update"]
-    ok = False
-    if len(ups) == 1 and ups[0].data["args"]:
-        a = ups[0].data["args"][0]
-        inter = [x for x in a.walk() if x.op == "binop" and
-                 x.args[0] == "BitAnd"]
-        ok = bool(inter) and any(
-            is_call_to(inter[0].args[1], ".keys") and
-            is_call_to(inter[0].args[2], ".keys") for _ in (0,))
-    ctx.ob("C18.5", g, ok,
-           "update_existing_keys is restricted to the key intersection"
-           if ok else "update_existing_keys can add keys",
-           key="C18.5:update-existing")
+    verdict, why = _restricted_writes(rg, tm.param(g.params[0]),
+                                      tm.param(g.params[1]), present=True)
+    if verdict is None:
+        ctx.undecidable("C18.5", g, f"update_existing_keys: {why} (unknown "
+                        f"idiom)")
+    else:
+        ctx.ob("C18.5", g, verdict,
+               "update_existing_keys is restricted to the keys the container "
+               "already has" if verdict else
+               f"update_existing_keys can add keys: {why}",
+               key="C18.5:update-existing")
     h = prog.func(ST + "SettingsContainer.__init__")
     import ast
     d = h.defaults().get("lock")
@@ -713,17 +813,6 @@ def _token_windows(ctx, prog):
         last2 = frozenset({(idx, -1), (n_, 1), (1, -1)})
         okf = (want, neg_want, ("eq", last), ("ne", last), ("eq", last2),
                ("ne", last2))
-        bad = [(a_, lc) for a_, lc in pos_cmps if lc not in okf]
-        ok = bool(pos_cmps) and not bad
-        ctx.ob("C18.10", f, ok,
-               f"{fname}: 'a next token exists' is tested as i + 1 < "
-               f"len(arg_list) ({len(pos_cmps)} comparison(s))" if ok else
-               f"{fname}: position test "
-               f"{fmt(bad[0][0]) if bad else 'missing'} is not "
-               f"`i + 1 < len(arg_list)` (off by one: the last value token "
-               f"is dropped or the list is over-read)",
-               key=f"C18.10:{fname}:next-exists")
-        # tokens are addressed at i (the parameter), i+1 (look-ahead) and j
         subs = set()
         for e in r.events:
             for key in ("value", "live"):
@@ -733,6 +822,23 @@ def _token_windows(ctx, prog):
                         if x.op == "sub" and x.args[0] is al and \
                                 x.args[1].op != "slice":
                             subs.add(x.args[1])
+        # a look-ahead read arg_list[i + 1] needs the test; a scan that is
+        # bounded by the list itself (slice / range to len) does not
+        lookahead = any(linear(i_) == {idx: 1, 1: 1} for i_ in subs)
+        bad = [(a_, lc) for a_, lc in pos_cmps if lc not in okf]
+        ok = (bool(pos_cmps) or not lookahead) and not bad
+        ctx.ob("C18.10", f, ok,
+               (f"{fname}: 'a next token exists' is tested as i + 1 < "
+                f"len(arg_list) ({len(pos_cmps)} comparison(s))"
+                if pos_cmps else
+                f"{fname}: no token is read ahead of the scan, which the "
+                f"list itself bounds") if ok else
+               f"{fname}: position test "
+               f"{fmt(bad[0][0]) if bad else 'missing'} is not "
+               f"`i + 1 < len(arg_list)` (off by one: the last value token "
+               f"is dropped or the list is over-read)",
+               key=f"C18.10:{fname}:next-exists")
+        # tokens are addressed at i (the parameter), i+1 (look-ahead) and j
         bad_idx = []
         for i_ in subs:
             li = linear(i_)
